@@ -14,8 +14,10 @@ CODES = [65, 66, 67, 97, 0xE000]
 IMAGES = ["i1.png", "i2.png"]
 VARIANTS = ["unread", "partial", "full", "memory"]
 
-# outline kinds: 0 none; 2 closed line contour (coherent);
-# 1 single move point, 3 off-curve only contour (incoherent: len(glyph)>0 but the fast GLIF scan says no outline)
+# outline kinds: 0 none; 2 closed line contour;
+# 1 single move point, 3 off-curve only contour: len(glyph) > 0 but no point ends a segment.  The loaded path of
+# glyphsWithOutlines used to list these and the fast GLIF scan did not (finding F33, repaired in /repo: both apply
+# the scan's test); they stay in the generator, in every case now.
 COHERENT_KINDS = [0, 2]
 INCOHERENT_KINDS = [1, 3]
 
@@ -139,8 +141,6 @@ def enc_op(op):
 
 def model_lines(case):
     lines = []
-    if case.get("incoherent"):
-        lines.append([Atom("mask"), Atom("outlines")])
     if case["variant"] == "memory":
         lines.append([Atom("init"), []])
         for n, rec in case["disk"]:
@@ -247,12 +247,8 @@ class Impl(object):
         for fn, refs in layer.imageReferences.items():
             for r in refs:
                 images.add((fn, r))
-        if self.case.get("incoherent"):
-            outl = Atom("masked")
-            self.last_outlines = sorted(set(layer.glyphsWithOutlines))
-        else:
-            outl = [Atom("set")] + sorted(set(layer.glyphsWithOutlines))
-            self.last_outlines = outl[1:]
+        outl = [Atom("set")] + sorted(set(layer.glyphsWithOutlines))
+        self.last_outlines = outl[1:]
         if self.touched:
             ud = layer.unicodeData
             uni = [Atom("set")] + [[c, [Atom("set")] + list(names)] for c, names in ud.items()]
@@ -374,7 +370,7 @@ class Shadow(object):
         keys = sorted(g)
         comps = sorted({(b, n) for n, r in g.items() for b in r["comps"]})
         images = sorted({(r["image"], n) for n, r in g.items() if r["image"] is not None})
-        outl = sorted(n for n, r in g.items() if r["kind"] != 0)
+        outl = sorted(n for n, r in g.items() if r["kind"] == 2)
         uni = None
         if self.touched:
             uni = {}
@@ -454,8 +450,7 @@ def run_case(case, prop, judged):
         stats = {"variant." + case["variant"]: 1}
         seq = []
         if case.get("incoherent"):
-            outs.append(Atom("ok"))
-            stats["incoherent_cases"] = 1
+            stats["cases_with_segmentless_contours"] = 1
         if case["variant"] == "memory":
             seq.append(None)
             for n, rec in case["disk"]:
@@ -519,11 +514,6 @@ def run_case(case, prop, judged):
                         break
                 elif exp[q] != obs[q]:
                     sig = "%s/query-differs/%s/after-%s" % (prop, q, op[0] if op else "open")
-                    if q == "outlines":
-                        diff = set(exp[q]) ^ set(obs[q])
-                        if diff and all(shadow.g.get(n, {}).get("kind") in INCOHERENT_KINDS for n in diff) \
-                                and not (set(obs[q]) - set(exp[q])):
-                            sig = "%s/query-differs/glyphsWithOutlines/unloaded-glyph-without-oncurve-segment" % prop
                     viol.append(dict(clause="%s/query-differs/%s" % (prop, q), signature=sig, step=i - n_setup, op=op,
                                      expected=exp[q], observed=obs[q], variant=case["variant"]))
                     break
